@@ -68,6 +68,12 @@ let handle = function
       let (v, o) = run (whole toks) in
       (match v with None -> "NONE" | Some c -> "V " ^ string_of_const c) ^ " |" ^ String.concat "" (List.map (fun c -> " " ^ string_of_const c) o)
   | "wf" :: toks -> string_of_bool (wf (whole toks))
+  | "simplify_body" :: toks -> show (simplify (whole toks) [] true)
+  | "run2" :: fuel :: toks ->
+      (match run2 (nat_of_int (int_of_string fuel)) (whole toks) with
+       | None -> "NONE |"
+       | Some (v, o) ->
+           (match v with None -> "V proc" | Some c -> "V " ^ string_of_const c) ^ " |" ^ String.concat "" (List.map (fun c -> " " ^ string_of_const c) o))
   | ["lsint_lt_0"; a] -> sz (lsint_lt_0 (pr a))
   | ["sexp_lsint_fits_sint"; a] -> sz (sexp_lsint_fits_sint (pr a))
   | ["sexp_luint_fits_uint"; a] -> sz (sexp_luint_fits_uint (pr a))
